@@ -164,10 +164,10 @@ func ParseExpr(src string) (e Expr, err error) {
 type parseErr string
 
 func (l *lexer) fail(f string, a ...interface{}) { panic(parseErr(fmt.Sprintf(f, a...))) }
-func (l *lexer) peek() tok                      { return l.toks[l.p] }
-func (l *lexer) next() tok                      { t := l.toks[l.p]; l.p++; return t }
-func (l *lexer) isOp(s string) bool             { t := l.peek(); return t.kind == "op" && t.text == s }
-func (l *lexer) isID(s string) bool             { t := l.peek(); return t.kind == "id" && t.text == s }
+func (l *lexer) peek() tok                       { return l.toks[l.p] }
+func (l *lexer) next() tok                       { t := l.toks[l.p]; l.p++; return t }
+func (l *lexer) isOp(s string) bool              { t := l.peek(); return t.kind == "op" && t.text == s }
+func (l *lexer) isID(s string) bool              { t := l.peek(); return t.kind == "id" && t.text == s }
 func (l *lexer) expect(s string) {
 	t := l.next()
 	if t.text != s {
